@@ -246,7 +246,7 @@ func (in *vfC19Inst) Apply(ev string, judge bool) string {
 	}
 	// (the monitor runs on every event, also while replaying a prefix; reports are gated by the explorer)
 	// local publication attempts
-	if f[0] == "lpub" {
+	if f[0] == "lpub" || f[0] == "lpubbatch" {
 		in.count("local_publications")
 		if pubs != 1 {
 			in.bad("c19:publish-count", "one local publication produced %d PUBLISH_MESSAGE events", pubs)
@@ -379,6 +379,11 @@ func vfC19Scenarios(thorough bool) []*vfGWScenario {
 		out = append(out, &vfGWScenario{Name: router + "-api", Cfg: vfGWCfg{Router: router, Peers: peers, Topics: []string{"t", "u"}, Params: "d2", Tracer: true, Prefix: []string{"conn:a", "sub:a:t"}, SeenTTL: 3600},
 			Alphabet: []string{"join:t", "leave:t", "relay:t", "unrelay:t", "join:u", "leave:u", "conn:b", "disc:a", "conn:a", "sub:b:t", "sub:a:t", "pub:a:m1", "pub:b:m1", "pubdup:a:m2", "lpub:t:p1", "lpub:u:p2", "lpub:t:p3:key", "hb", "outreset:a"},
 			Msgs:     msgs, Depth: d, MaxSubs: 2})
+		if router == "gossip" {
+			// batch publication (gossipsub only), ordinary and local-only: the same events as for a single publication
+			sc := out[len(out)-1]
+			sc.Alphabet = append(sc.Alphabet, "lpubbatch:t:p4:local", "lpubbatch:t:p5")
+		}
 	}
 	p4 := []vfPeerCfg{{Name: "a", Proto: "v11", IP: "10.0.0.1"}, {Name: "b", Proto: "v12", IP: "10.0.0.2", Outbound: true}, {Name: "c", Proto: "v10", IP: "10.0.0.3"}, {Name: "d", Proto: "fs", IP: "10.0.0.4"}}
 	out = append(out, &vfGWScenario{Name: "gossip-mesh", Cfg: vfGWCfg{Router: "gossip", Peers: p4, Topics: []string{"t"}, Params: "d2", Scoring: true, Tracer: true, SeenTTL: 3600,
